@@ -284,6 +284,11 @@ def check(run):
             if k >= (10 if quick else 40):
                 break
             inputs.append(("huge-string", d)); fb_tools.append(d)
+    # valid files that are large along one dimension: index lists of more than 65536 entries, byte strings of 12 MiB
+    for r in E.run_sessions(run, E.scale_sessions()[1:], need_rd=False, need_lean=False):
+        for data, err in (r["plain"] or []):
+            if data:
+                inputs.append(("scale", data)); fb_tools.append(data)
     import copy
     while len(inputs) < n_mut:
         k = rng.random()
